@@ -70,7 +70,12 @@ func c12server(dir string) {
 		fmt.Println("ERR", err)
 		os.Exit(3)
 	}
-	fmt.Println("READY", svc.ServiceID())
+	id2, err := svc.Add(bus.NewBasicObject(c13nop{}, c12meta(), func(string, []byte) error { return nil }))
+	if err != nil {
+		fmt.Println("ERR", err)
+		os.Exit(3)
+	}
+	fmt.Println("READY", svc.ServiceID(), id2)
 	io.Copy(io.Discard, os.Stdin) // lives until the parent closes the pipe
 }
 
@@ -79,6 +84,7 @@ type c12child struct {
 	cmd    *exec.Cmd
 	stdin  io.WriteCloser
 	svc    uint32
+	obj2   uint32 // id of the second object of the generic service
 	exited chan error
 }
 
@@ -101,7 +107,7 @@ func c12start(root string) (*c12child, error) {
 	go func() { l, _ := bufio.NewReader(stdout).ReadString('\n'); lineCh <- l }()
 	select {
 	case line := <-lineCh:
-		if _, err := fmt.Sscanf(strings.TrimSpace(line), "READY %d", &ch.svc); err != nil {
+		if _, err := fmt.Sscanf(strings.TrimSpace(line), "READY %d %d", &ch.svc, &ch.obj2); err != nil {
 			ch.stop()
 			return nil, fmt.Errorf("child said %q", line)
 		}
@@ -210,13 +216,13 @@ func c12valueStr(s string) []byte { var b bytes.Buffer; value.String(s).Write(&b
 func c12valueInt(i int32) []byte  { var b bytes.Buffer; value.Int(i).Write(&b); return b.Bytes() }
 
 // probe: a fresh client asks (svc, 1) for its meta object.  0 = no answer, 2 = reply, 3 = error.
-func c12probe(ch *c12child, svc uint32) int {
+func c12probe(ch *c12child, svc, obj uint32) int {
 	r, err := c12dial(ch.dir)
 	if err != nil {
 		return 0
 	}
 	defer r.c.Close()
-	r.writeFrame(net.Call, svc, 1, 2, 3, c12le32(1))
+	r.writeFrame(net.Call, svc, obj, 2, 3, c12le32(obj))
 	dl := time.Now().Add(c12Probe)
 	for time.Until(dl) > 0 {
 		m, err := r.readFrame(time.Until(dl))
@@ -288,6 +294,9 @@ func c12genFrame(rng *hx.Rng, gsvc uint32, id uint32, uids []uint64) c12frame {
 	}
 	if rng.Chance(0.1) {
 		f.obj = uint32(rng.Pick(0, 5, 0xffffffff))
+	}
+	if f.svc == gsvc && rng.Chance(0.2) {
+		f.obj = 2 // stands for the second object of the generic service (its id is drawn by Service.Add)
 	}
 	bad := rng.Chance(0.25) // malformed payload
 	cut := func(b []byte) []byte {
@@ -395,9 +404,10 @@ type c12run struct {
 	frames   []c12frame
 	got      [][][3]uint32 // per connection
 	stuck    bool
-	probes   [2]int // directory, generic
+	probes   [3]int // directory, generic object 1, generic object 2
+	obj2     uint32
 	alive    bool
-	removed  [2]bool // the script itself terminated / unregistered it
+	removed  [3]bool // the script itself terminated it
 	tags     map[string]bool
 	name     string
 	compared bool
@@ -429,6 +439,16 @@ func c12exec(root string, frames []c12frame, nconn int) (*c12run, error) {
 		r := conns[f.conn]
 		if f.svc == 2 {
 			f.svc = ch.svc
+			if f.obj == 2 {
+				f.obj = ch.obj2
+				if strings.HasPrefix(f.cls, "(pack_args 1 ") { // arguments naming "this object"
+					var a, b uint32
+					var u uint64
+					fmt.Sscanf(f.cls, "(pack_args %d %d %d)", &a, &b, &u)
+					f.cls = c12pack(ch.obj2, b, u)
+					binary.LittleEndian.PutUint32(f.payload[0:4], ch.obj2)
+				}
+			}
 		}
 		if f.raw != nil {
 			r.write(f.raw, time.Second)
@@ -469,7 +489,8 @@ func c12exec(root string, frames []c12frame, nconn int) (*c12run, error) {
 		run.got = append(run.got, r.got)
 	}
 	run.alive = ch.alive()
-	run.probes = [2]int{c12probe(ch, 1), c12probe(ch, ch.svc)}
+	run.probes = [3]int{c12probe(ch, 1, 1), c12probe(ch, ch.svc, 1), c12probe(ch, ch.svc, ch.obj2)}
+	run.obj2 = ch.obj2
 	run.alive = run.alive && ch.alive()
 	for i := range run.frames {
 		if run.frames[i].svc == ch.svc {
@@ -491,8 +512,8 @@ func (run *c12run) caseTerm() string {
 		}
 		gs = append(gs, hx.List(l))
 	}
-	return fmt.Sprintf("{| h_frames := [%s]%%N; h_got := %s%%N; h_probes := (%d, %d)%%N |}",
-		strings.Join(fs, "; "), hx.List(gs), run.probes[0], run.probes[1])
+	return fmt.Sprintf("{| h_frames := [%s]%%N; h_got := %s%%N; h_probes := (%d, %d, %d)%%N; h_obj2 := %d%%N |}",
+		strings.Join(fs, "; "), hx.List(gs), run.probes[0], run.probes[1], run.probes[2], run.obj2)
 }
 
 // ---- oracle-only scripts ----
@@ -500,8 +521,8 @@ func (run *c12run) caseTerm() string {
 type c12script struct {
 	name string
 	tags []string
-	// returns which of (directory, generic) the script removed on purpose
-	play func(ch *c12child, h *c12raw, rng *hx.Rng) [2]bool
+	// returns which of (directory, generic object 1, generic object 2) the script removed on purpose
+	play func(ch *c12child, h *c12raw, rng *hx.Rng) [3]bool
 }
 
 func c12validServiceInfo(name string) []byte {
@@ -518,9 +539,9 @@ func c12validServiceInfo(name string) []byte {
 }
 
 func c12scripts() []c12script {
-	none := [2]bool{}
-	flood := func(n int, act uint32, payload func(i int) []byte) func(*c12child, *c12raw, *hx.Rng) [2]bool {
-		return func(ch *c12child, h *c12raw, rng *hx.Rng) [2]bool {
+	none := [3]bool{}
+	flood := func(n int, act uint32, payload func(i int) []byte) func(*c12child, *c12raw, *hx.Rng) [3]bool {
+		return func(ch *c12child, h *c12raw, rng *hx.Rng) [3]bool {
 			for i := 0; i < n; i++ {
 				if h.write(c12bytes(net.Call, ch.svc, 1, act, uint32(1000+2*i), payload(i)), 300*time.Millisecond) != nil {
 					break
@@ -532,7 +553,7 @@ func c12scripts() []c12script {
 	return []c12script{
 		{"burst-40-calls-unread", nil, flood(40, 80, func(int) []byte { return nil })},
 		{"flood-2000-metaobject-unread", []string{"write_blocks"}, flood(2000, 2, func(int) []byte { return c12le32(1) })},
-		{"flood-registrations-unread", []string{"write_blocks"}, func(ch *c12child, h *c12raw, rng *hx.Rng) [2]bool {
+		{"flood-registrations-unread", []string{"write_blocks"}, func(ch *c12child, h *c12raw, rng *hx.Rng) [3]bool {
 			// registerEvent calls behind a flood: the object needs the endpoint's mutex that dispatch holds while it cannot write
 			for i := 0; i < 3000; i++ {
 				act, pl := uint32(2), c12le32(1)
@@ -545,21 +566,21 @@ func c12scripts() []c12script {
 			}
 			return none
 		}},
-		{"duplicate-registration", []string{"dup_relock"}, func(ch *c12child, h *c12raw, rng *hx.Rng) [2]bool {
+		{"duplicate-registration", []string{"dup_relock"}, func(ch *c12child, h *c12raw, rng *hx.Rng) [3]bool {
 			h.writeFrame(net.Call, ch.svc, 1, 0, 11, c12args(1, 200, 7))
 			h.await(11, c12Answer)
 			h.writeFrame(net.Call, ch.svc, 1, 0, 13, c12args(1, 201, 7))
 			h.await(13, 300*time.Millisecond)
 			return none
 		}},
-		{"duplicate-registration-on-directory", []string{"dup_relock"}, func(ch *c12child, h *c12raw, rng *hx.Rng) [2]bool {
+		{"duplicate-registration-on-directory", []string{"dup_relock"}, func(ch *c12child, h *c12raw, rng *hx.Rng) [3]bool {
 			h.writeFrame(net.Call, 1, 1, 0, 11, c12args(1, 106, 9))
 			h.await(11, c12Answer)
 			h.writeFrame(net.Post, 1, 1, 0, 13, c12args(0, 107, 9))
 			time.Sleep(200 * time.Millisecond)
 			return none
 		}},
-		{"hostile-list-count-registerService", []string{"alloc_from_wire"}, func(ch *c12child, h *c12raw, rng *hx.Rng) [2]bool {
+		{"hostile-list-count-registerService", []string{"alloc_from_wire"}, func(ch *c12child, h *c12raw, rng *hx.Rng) [3]bool {
 			var b bytes.Buffer
 			b.Write(c12str("x"))
 			b.Write(c12le32(5))
@@ -570,25 +591,25 @@ func c12scripts() []c12script {
 			h.await(11, c12Answer)
 			return none
 		}},
-		{"nested-signature-in-value", []string{"sig_parse_exponential"}, func(ch *c12child, h *c12raw, rng *hx.Rng) [2]bool {
+		{"nested-signature-in-value", []string{"sig_parse_exponential"}, func(ch *c12child, h *c12raw, rng *hx.Rng) [3]bool {
 			sig := strings.Repeat("(", 22) + "i" + strings.Repeat(")", 22)
 			h.writeFrame(net.Call, ch.svc, 1, 6, 11, append(c12valueStr("x"), c12str(sig)...))
 			h.await(11, 300*time.Millisecond)
 			return none
 		}},
-		{"terminate-generic-object", nil, func(ch *c12child, h *c12raw, rng *hx.Rng) [2]bool {
+		{"terminate-generic-object", nil, func(ch *c12child, h *c12raw, rng *hx.Rng) [3]bool {
 			h.writeFrame(net.Call, ch.svc, 1, 0, 11, c12args(1, 200, 7))
 			h.writeFrame(net.Call, ch.svc, 1, 3, 13, c12le32(1))
 			h.await(13, c12Answer)
-			return [2]bool{false, true}
+			return [3]bool{false, true, false}
 		}},
-		{"unregister-generic-service", nil, func(ch *c12child, h *c12raw, rng *hx.Rng) [2]bool {
+		{"unregister-generic-service", nil, func(ch *c12child, h *c12raw, rng *hx.Rng) [3]bool {
 			h.writeFrame(net.Call, 1, 1, 0, 11, c12args(1, 107, 5))
 			h.writeFrame(net.Call, 1, 1, 103, 13, c12le32(ch.svc))
 			h.await(13, c12Answer)
 			return none // the directory forgets the name; the service itself keeps answering
 		}},
-		{"register-then-disconnect-then-emit", nil, func(ch *c12child, h *c12raw, rng *hx.Rng) [2]bool {
+		{"register-then-disconnect-then-emit", nil, func(ch *c12child, h *c12raw, rng *hx.Rng) [3]bool {
 			h.writeFrame(net.Call, 1, 1, 0, 11, c12args(1, 106, 5))
 			h.writeFrame(net.Call, 1, 1, 0, 13, c12args(1, 107, 6))
 			h.await(13, c12Answer)
@@ -601,26 +622,26 @@ func c12scripts() []c12script {
 			}
 			return none
 		}},
-		{"disconnect-mid-header", nil, func(ch *c12child, h *c12raw, rng *hx.Rng) [2]bool {
+		{"disconnect-mid-header", nil, func(ch *c12child, h *c12raw, rng *hx.Rng) [3]bool {
 			b := c12bytes(net.Call, ch.svc, 1, 2, 11, c12le32(1))
 			h.write(b[:rng.Intn(28)], time.Second)
 			h.c.Close()
 			return none
 		}},
-		{"disconnect-mid-payload", nil, func(ch *c12child, h *c12raw, rng *hx.Rng) [2]bool {
+		{"disconnect-mid-payload", nil, func(ch *c12child, h *c12raw, rng *hx.Rng) [3]bool {
 			b := c12bytes(net.Call, 1, 1, 102, 11, c12validServiceInfo("half"))
 			h.write(b[:28+rng.Intn(len(b)-28)], time.Second)
 			h.c.Close()
 			return none
 		}},
-		{"declared-size-larger-than-sent", nil, func(ch *c12child, h *c12raw, rng *hx.Rng) [2]bool {
+		{"declared-size-larger-than-sent", nil, func(ch *c12child, h *c12raw, rng *hx.Rng) [3]bool {
 			b := c12bytes(net.Call, ch.svc, 1, 2, 11, c12le32(1))
 			binary.LittleEndian.PutUint32(b[8:12], uint32(rng.Pick(5, 4096, 10*1024*1024)))
 			h.write(b, time.Second)
 			time.Sleep(100 * time.Millisecond)
 			return none
 		}},
-		{"bad-headers", nil, func(ch *c12child, h *c12raw, rng *hx.Rng) [2]bool {
+		{"bad-headers", nil, func(ch *c12child, h *c12raw, rng *hx.Rng) [3]bool {
 			b := c12bytes(net.Call, ch.svc, 1, 2, 11, c12le32(1))
 			switch rng.Intn(4) {
 			case 0:
@@ -636,12 +657,12 @@ func c12scripts() []c12script {
 			h.await(11, 200*time.Millisecond)
 			return none
 		}},
-		{"random-bytes", nil, func(ch *c12child, h *c12raw, rng *hx.Rng) [2]bool {
+		{"random-bytes", nil, func(ch *c12child, h *c12raw, rng *hx.Rng) [3]bool {
 			h.write(rng.Bytes(1+rng.Intn(200)), time.Second)
 			time.Sleep(50 * time.Millisecond)
 			return none
 		}},
-		{"mutated-valid-traffic", nil, func(ch *c12child, h *c12raw, rng *hx.Rng) [2]bool {
+		{"mutated-valid-traffic", nil, func(ch *c12child, h *c12raw, rng *hx.Rng) [3]bool {
 			// valid requests with one length/count field or one byte changed (small values only: the
 			// decoders' own limits are C07's subject)
 			base := [][]byte{
@@ -695,7 +716,7 @@ func c12oracleRun(root string, sc c12script, rng *hx.Rng) (*c12run, error) {
 	}
 	run.removed = sc.play(ch, h, rng)
 	run.alive = ch.alive()
-	run.probes = [2]int{c12probe(ch, 1), c12probe(ch, ch.svc)}
+	run.probes = [3]int{c12probe(ch, 1, 1), c12probe(ch, ch.svc, 1), c12probe(ch, ch.svc, ch.obj2)}
 	run.alive = run.alive && ch.alive()
 	return run, nil
 }
@@ -718,7 +739,7 @@ func (run *c12run) judge(res *hx.Result, sw map[string]bool, desc string) {
 	if !run.alive {
 		fail("server-died", "the server process exited during: "+desc)
 	}
-	names := []string{"the service directory (service 1, object 1)", "the generic object (service 2, object 1)"}
+	names := []string{"the service directory (service 1, object 1)", "the generic object (service 2, object 1)", "the second object of the generic service (service 2)"}
 	for i, p := range run.probes {
 		if run.removed[i] {
 			continue
@@ -767,6 +788,7 @@ func runC12(res *hx.Result, rng *hx.Rng, tier string, outdir string) {
 		return nil
 	}
 	dead := func(r *c12run) bool { return r.probes[1] != int(net.Reply) || !r.alive }
+	_ = dead
 	probeSwitch("duplicate-registration", dead, "registerEvent twice with user id 7 on one connection (service 2, object 1): the second call is never answered and the object answers nobody any more")
 	probeSwitch("flood-2000-metaobject-unread", dead, "2000 metaObject calls sent without reading the answers: the object's goroutine blocks in its write; a fresh client gets no answer")
 	probeSwitch("hostile-list-count-registerService", func(r *c12run) bool { return !r.alive || r.probes[0] != int(net.Reply) }, "registerService whose Endpoints count is 0xffffffff: the generated decoder allocates from the wire count; the server process dies")
@@ -777,7 +799,7 @@ func runC12(res *hx.Result, rng *hx.Rng, tier string, outdir string) {
 		if h, err := c12dial(ch.dir); err == nil {
 			h.writeFrame(net.Call, ch.svc, 1, 3, 13, c12le32(1))
 			h.await(13, c12Answer)
-			removedAnswers = c12probe(ch, ch.svc) == int(net.Reply)
+			removedAnswers = c12probe(ch, ch.svc, 1) == int(net.Reply)
 			h.c.Close()
 		}
 		ch.stop()
@@ -821,6 +843,10 @@ func runC12(res *hx.Result, rng *hx.Rng, tier string, outdir string) {
 				if f.cls == c12PBad || f.raw != nil || f.act == 0 || f.act == 1 || f.act == 3 {
 					nontrivial = true
 				}
+			}
+			if f.act == 3 && f.svc == 2 && f.obj == run.obj2 && (strings.HasPrefix(f.cls, fmt.Sprintf("(pack_args %d ", run.obj2)) || strings.HasPrefix(f.cls, "(pack_args 0 ")) &&
+				f.typ != net.Reply && f.typ != net.Error && f.typ != net.Event && f.typ != net.Cancelled {
+				run.removed[2] = true
 			}
 			if f.act == 3 && strings.HasPrefix(f.cls, "(pack_args 1 ") || f.act == 3 && strings.HasPrefix(f.cls, "(pack_args 0 ") {
 				if f.svc == 1 && f.obj == 1 && f.typ != net.Reply && f.typ != net.Error && f.typ != net.Event && f.typ != net.Cancelled {
@@ -878,15 +904,17 @@ func runC12(res *hx.Result, rng *hx.Rng, tier string, outdir string) {
 		for j := 0; j < n; j++ {
 			f := c12genFrame(rng, 2, uint32(11+2*j), uids)
 			f.conn = rng.Intn(nconn)
-			if f.act == 0 && strings.HasPrefix(f.cls, "(pack_args") && (f.svc == 1 || f.svc == 2) && f.obj == 1 {
+			if f.act == 0 && strings.HasPrefix(f.cls, "(pack_args") && (f.svc == 1 || f.svc == 2) && (f.obj == 1 || f.obj == 2) {
 				var a, b uint32
 				var u uint64
 				fmt.Sscanf(f.cls, "(pack_args %d %d %d)", &a, &b, &u)
-				k := u*4 + uint64(f.svc)
-				if dup[k] {
-					tags = append(tags, "dup_relock")
+				k := u*8 + uint64(f.svc)*2 + uint64(f.obj-1)
+				if a == 0 || a == 1 { // otherwise refused before the table is consulted
+					if dup[k] {
+						tags = append(tags, "dup_relock")
+					}
+					dup[k] = true
 				}
-				dup[k] = true
 			}
 			frames = append(frames, f)
 		}
